@@ -113,6 +113,17 @@ func (E *Engine) enterLoop(fr *Frame, cur *State, lp *loop, li *loopInfo) {
 	tb := E.tb
 	inv := E.P.invariants[originOf(fr.fn)][lp.ordinal]
 	label := fmt.Sprintf("%s:loop%d", shortFn(fr.fn), lp.ordinal)
+	if inv != nil && !E.invariantBinds(fr, cur, lp, inv) {
+		// the function was restructured and the invariant written for this loop ordinal no longer fits
+		// its variables: the loop is cut without it (everything it writes is forgotten); the contract's
+		// postconditions still have to be proved
+		E.note("invariant " + inv.Name() + " no longer binds to " + label + " (variables it names are not in scope there): loop cut with 'true'")
+		if fr.staleInv == nil {
+			fr.staleInv = map[*loop]bool{}
+		}
+		fr.staleInv[lp] = true
+		inv = nil
+	}
 	if inv != nil {
 		goal := E.evalInvariant(fr, cur, lp, inv, nil)
 		E.addObl(fr, cur, "inv-init", label, goal, lp.header.Instrs[0].Pos())
@@ -178,9 +189,35 @@ func nextBlockOf(r *ssa.Range) *ssa.BasicBlock {
 	return r.Block()
 }
 
+// invariantBinds: can every parameter of the invariant be resolved at the loop header?
+func (E *Engine) invariantBinds(fr *Frame, st *State, lp *loop, inv *ssa.Function) (ok bool) {
+	defer func() {
+		if r := recover(); r != nil {
+			if _, isAbort := r.(abort); isAbort {
+				ok = false
+				return
+			}
+			panic(r)
+		}
+	}()
+	for _, p := range inv.Params {
+		v := E.resolveNameAt(fr, st, lp.header, 0, p.Name())
+		if v == nil {
+			return false
+		}
+		// the variable must still have the type the invariant expects
+		if t, isTerm := v.(*Term); isTerm {
+			if t.sort != E.sortOf(p.Type(), nil) && inv.TypeParams() == nil {
+				return false
+			}
+		}
+	}
+	return true
+}
+
 func (E *Engine) backEdge(fr *Frame, s *State, from *ssa.BasicBlock, lp *loop) {
 	inv := E.P.invariants[originOf(fr.fn)][lp.ordinal]
-	if inv == nil {
+	if inv == nil || fr.staleInv[lp] {
 		return
 	}
 	idx := predIndex(lp.header, from)
